@@ -212,9 +212,19 @@ TDeDoc ==
            ev == CASE Ev.kind = "str" -> "str" [] Ev.kind = "bytes" -> "bytes" [] OTHER -> "other" IN
        DeAllows(V, human, ev, Ev.payload, STRICT, Ev.r)
 
+-----------------------------------------------------------------------------
+(* Bucket aggregation back ends (C01 e, C07): any q1 <= q2 <= q3.          *)
+
+TAgg ==
+    /\ IsEvent("agg") /\ NoPanic
+    /\ LET av == [nb |-> Ev.nb]
+           bk == [i \in 0..(Ev.nb - 1) |-> Ev.bk[i + 1]] IN
+       /\ WLe(Ev.q[1], Ev.q[2]) /\ WLe(Ev.q[2], Ev.q[3])
+       /\ Ev.out = BodyOf(av, bk, Ev.q[1], Ev.q[2], Ev.q[3])
+
 TraceNext ==
     \/ (TFmt /\ TRUE) \/ TFmtSweep \/ TParse \/ TParseSweep \/ TFromBytes \/ TStore
-    \/ TSer \/ TDe \/ TDeDoc
+    \/ TSer \/ TDe \/ TDeDoc \/ TAgg
     \/ TCmp \/ TDistMatrix \/ TBodyMatrix \/ TBodyDist \/ TCmpStr \/ TDecodeMatrix \/ TEncodeTable
 
 TraceInit == l = 1
